@@ -304,6 +304,7 @@ def run(tier, seed):
     di = diff_items(tier)
     col.merge(engines.fanout(di, work_diff, seed=seed))
     col.merge(stepcheck.explore(F.scale_items(("TSLACK",)), MONS, 0, 0, seed=seed))  # medium-sized models (10-14 tasks / workers / machines), long absence lists
+    col.merge(stepcheck.explore(F.extra_items(("TSLACK",), calendars=True), MONS, 0, 0, seed=seed))  # other ways of building the object graph; continuations under a revised calendar
     meta = {
         "level": "model_checking",
         "rule": "(monitors) FS/SS/FF workflows on 3 tasks x {POOL2,MIX} x automatic-task variants x both auto flags, and the FAC family, explored over project-wide absence answers to depth H "
